@@ -238,6 +238,21 @@ def _load_compilers():
                         option["action"] = _StoreSplitAction
                     if option["action"] == "extend_match":
                         option["action"] = _ExtendMatchAction
+                    # A flag that is defined again takes the new definition.
+                    # Warn because the earlier definition of the flag is lost.
+                    kept = []
+                    for earlier in compiler.parser:
+                        flags = [
+                            f
+                            for f in earlier["flags"]
+                            if f not in option["flags"]
+                        ]
+                        if len(flags) != len(earlier["flags"]):
+                            log.warning(f"flag(s) of {name} redefined")
+                            earlier = {**earlier, "flags": flags}
+                        if flags:
+                            kept.append(earlier)
+                    compiler.parser = kept
                     compiler.parser.append(option)
             if "modes" in definition:
                 for m in definition["modes"]:
